@@ -324,7 +324,10 @@ where
         .fields
         .iter()
         .map(|(name, r#type)| {
-            let field_name = Ident::new(name, Span::call_site());
+            // The literal names the members of the generated struct: same identifiers as in
+            // `generate_struct` (snake case, keywords escaped).
+            let safe_field_name = shared::keyword_replace(name.to_snake_case());
+            let field_name = Ident::new(safe_field_name.as_ref(), Span::call_site());
             let provided_value = object_map.get(name);
             match provided_value {
                 Some(default_value) => {
